@@ -698,3 +698,13 @@ package cache
 //@   loop 3 invariant !old(res.AuthenticatedData) ==> !msg.AuthenticatedData
 //@   assert at return#1: !old(res.AuthenticatedData) ==> !msg.AuthenticatedData
 //@   assert at store dns.MsgHdr.AuthenticatedData#1: !value && !res.AuthenticatedData && calls("append") == 0
+//@
+//@ # ---- C04: a synthesised denial lives no longer than ANY RRset it was built from - the zone's SOA entry and every
+//@ # selected NSEC/NSEC3 RRset entry - whether or not the client asked for the DNSSEC records (a DO=0 reply is the
+//@ # same denial with its proof stripped, not a longer-lived one); the expiry handed back is that minimum
+//@ func denialProofResponse
+//@   abstract
+//@   nosafety all pre
+//@   loop 1 invariant soa != nil && inst(expires) <= inst(soa.expires)
+//@   loop 1 invariant forall j int :: {proofEntries[j]} 0 <= j && j < rangeidx ==> proofEntries[j] != nil && inst(expires) <= inst(proofEntries[j].expires)
+//@   assert at call (time.Time).Sub#1: arg0 == expires && arg1 == now
